@@ -10,12 +10,17 @@
 package nd
 
 import (
+	"bufio"
 	"encoding/binary"
+	"encoding/json"
 	"fmt"
-	"os"
 	"hash/fnv"
+	"io"
+	"os"
+	"path/filepath"
 	"sort"
 	"strings"
+	"syscall"
 	"time"
 )
 
@@ -140,8 +145,18 @@ type Options struct {
 	// bounding nearly the whole tree hangs below the default prefix, so depth
 	// cuts balance badly; these subtrees are many and small.
 	ShardLevels int
-	MaxViol  int       // stop after this many distinct violation signatures (default 20)
-	Samples  int       // number of sample executions to keep (default 4)
+	// QueueDir (with ShardLevels): instead of every worker enumerating the
+	// whole shard frontier and taking idx%NShards of it, the workers share a
+	// work queue kept in this directory (files under an exclusive lock). A job
+	// is a prefix and a level; a job below ShardLevels runs the default
+	// execution of its prefix and pushes its single-deviation children, a job
+	// at ShardLevels explores its whole subtree. The executions performed are
+	// exactly those of the static split, each by exactly one worker; heavy
+	// subtrees no longer leave the other workers idle and the frontier is
+	// expanded once instead of once per worker.
+	QueueDir string
+	MaxViol  int                // stop after this many distinct violation signatures (default 20)
+	Samples  int                // number of sample executions to keep (default 4)
 	OnExec   func(vector []int) // called before every execution (crash isolation)
 }
 
@@ -164,18 +179,18 @@ type Sample struct {
 
 // Stats is the coverage statement of one exploration.
 type Stats struct {
-	Evaluations int64            `json:"evaluations"`
-	Skipped     int64            `json:"skipped"`
-	Transitions int64            `json:"transitions"`
-	MaxDepth    int              `json:"max_depth"`
-	Outcomes    map[string]int64 `json:"outcomes"`
+	Evaluations int64               `json:"evaluations"`
+	Skipped     int64               `json:"skipped"`
+	Transitions int64               `json:"transitions"`
+	MaxDepth    int                 `json:"max_depth"`
+	Outcomes    map[string]int64    `json:"outcomes"`
 	NonTrivial  map[uint64]struct{} `json:"-"`
 	States      map[uint64]struct{} `json:"-"`
-	Found       map[string]*Found `json:"found,omitempty"`
-	Samples     []Sample         `json:"samples,omitempty"`
-	Exhaustive  bool             `json:"exhaustive"`
-	CapNote     string           `json:"cap_note,omitempty"`
-	NondetErr   string           `json:"nondet_err,omitempty"`
+	Found       map[string]*Found   `json:"found,omitempty"`
+	Samples     []Sample            `json:"samples,omitempty"`
+	Exhaustive  bool                `json:"exhaustive"`
+	CapNote     string              `json:"cap_note,omitempty"`
+	NondetErr   string              `json:"nondet_err,omitempty"`
 }
 
 func hash64(s string) uint64 {
@@ -290,7 +305,61 @@ func Explore(body Body, opt Options) (st *Stats) {
 	// Enumerate the frontier at CutDepth; shard by index.
 	var roots [][]int
 	leafOnly := map[int]bool{} // index into roots: run only this one execution
-	if opt.NShards > 1 && opt.ShardLevels > 0 {
+	var nextRoot func() (root []int, leaf bool, ok bool)
+	var q *workQueue
+	var leafPts []Point // choice points of the leaf execution just performed
+	if opt.NShards > 1 && opt.ShardLevels > 0 && opt.QueueDir != "" {
+		q = &workQueue{dir: opt.QueueDir}
+		defer func() {
+			if e := recover(); e != nil {
+				q.abort()
+				panic(e)
+			}
+			if !st.Exhaustive {
+				q.abort()
+			}
+		}()
+		var cur *qJob
+		nextRoot = func() ([]int, bool, bool) {
+			// finish the previous job: a job below the last level hands its
+			// single-deviation children on
+			var push []qJob
+			if cur != nil && cur.Level < opt.ShardLevels {
+				dev := 0
+				for i, p := range leafPts {
+					if i >= len(cur.Prefix) {
+						for alt := 1; alt < p.N; alt++ {
+							if dev+p.Cost > opt.MaxDev {
+								break
+							}
+							v := make([]int, i+1)
+							for k := 0; k < i; k++ {
+								v[k] = leafPts[k].Choice
+							}
+							v[i] = alt
+							push = append(push, qJob{Prefix: v, Level: cur.Level + 1})
+						}
+					}
+					if p.Choice > 0 {
+						dev += p.Cost
+					}
+				}
+			}
+			j, state := q.next(push, cur != nil, opt.Deadline)
+			cur = j
+			switch state {
+			case qAborted:
+				st.Exhaustive = false
+				if st.CapNote == "" {
+					st.CapNote = "another worker stopped early (deadline or violation cap)"
+				}
+				return nil, false, false
+			case qDone:
+				return nil, false, false
+			}
+			return j.Prefix, j.Level < opt.ShardLevels, true
+		}
+	} else if opt.NShards > 1 && opt.ShardLevels > 0 {
 		type job struct {
 			prefix []int
 			leaf   bool
@@ -333,12 +402,14 @@ func Explore(body Body, opt Options) (st *Stats) {
 			}
 			jobs = nextJobs
 		}
-		for idx, j := range jobs {
-			if idx%opt.NShards == opt.Shard {
-				if j.leaf {
-					leafOnly[len(roots)] = true
+		{
+			for idx, j := range jobs {
+				if idx%opt.NShards == opt.Shard {
+					if j.leaf {
+						leafOnly[len(roots)] = true
+					}
+					roots = append(roots, j.prefix)
 				}
-				roots = append(roots, j.prefix)
 			}
 		}
 	} else if opt.NShards > 1 && opt.CutDepth > 0 {
@@ -378,11 +449,26 @@ func Explore(body Body, opt Options) (st *Stats) {
 	}
 
 	n := 0
-	for ri, root := range roots {
+	if nextRoot == nil {
+		ri := -1
+		nextRoot = func() ([]int, bool, bool) {
+			ri++
+			if ri >= len(roots) {
+				return nil, false, false
+			}
+			return roots[ri], leafOnly[ri], true
+		}
+	}
+	for {
+		root, leaf, ok := nextRoot()
+		if !ok {
+			break
+		}
 		vec := root
 		if vec == nil {
 			vec = []int{}
 		}
+		floor := len(root)
 		var exp []Point
 		for vec != nil {
 			// keep notes for the first few executions (samples), spread out
@@ -454,13 +540,186 @@ func Explore(body Body, opt Options) (st *Stats) {
 				}
 			}
 			exp = append(exp[:0], c.pts...)
-			if leafOnly[ri] {
+			if leaf {
+				leafPts = append(leafPts[:0], c.pts...)
 				break
 			}
-			vec = next(c.pts, len(root), -1, opt.MaxDev)
+			if q != nil && n&0x1ff == 0 && q.hungry() {
+				// some worker is idle: hand the shallowest unexplored siblings of
+				// the current execution over as whole-subtree jobs and keep only
+				// the subtree below the current choice at that depth
+				dev := 0
+				for i, p := range c.pts {
+					if i >= floor && p.Choice+1 < p.N && dev+p.Cost <= opt.MaxDev {
+						var give []qJob
+						for alt := p.Choice + 1; alt < p.N; alt++ {
+							v := make([]int, i+1)
+							for k := 0; k < i; k++ {
+								v[k] = c.pts[k].Choice
+							}
+							v[i] = alt
+							give = append(give, qJob{Prefix: v, Level: opt.ShardLevels})
+						}
+						q.donate(give)
+						floor = i + 1
+						break
+					}
+					if p.Choice > 0 {
+						dev += p.Cost
+					}
+				}
+			}
+			vec = next(c.pts, floor, -1, opt.MaxDev)
 		}
 	}
 	return st
+}
+
+// workQueue is the file-backed job queue shared by the workers of one part.
+type workQueue struct{ dir string }
+
+type qJob struct {
+	Prefix []int `json:"p"`
+	Level  int   `json:"l"`
+}
+
+type qState struct {
+	Seeded  bool  `json:"seeded"`
+	Off     int64 `json:"off"`     // byte offset of the next unclaimed job
+	Active  int   `json:"active"`  // jobs claimed and not yet finished
+	Waiting int   `json:"waiting"` // workers waiting for a job
+	Aborted bool  `json:"aborted"`
+}
+
+const (
+	qJobReady = iota
+	qDone
+	qAborted
+)
+
+func (q *workQueue) locked(fn func(st *qState, jobs *os.File)) {
+	lf, err := os.OpenFile(filepath.Join(q.dir, "queue.lock"), os.O_RDWR|os.O_CREATE, 0o644)
+	if err != nil {
+		panic(NondetError{Msg: "work queue: " + err.Error()})
+	}
+	defer lf.Close()
+	if err := syscall.Flock(int(lf.Fd()), syscall.LOCK_EX); err != nil {
+		panic(NondetError{Msg: "work queue: " + err.Error()})
+	}
+	defer syscall.Flock(int(lf.Fd()), syscall.LOCK_UN)
+	var st qState
+	sp := filepath.Join(q.dir, "queue.state")
+	if b, err := os.ReadFile(sp); err == nil {
+		json.Unmarshal(b, &st)
+	}
+	jf, err := os.OpenFile(filepath.Join(q.dir, "queue.jobs"), os.O_RDWR|os.O_CREATE, 0o644)
+	if err != nil {
+		panic(NondetError{Msg: "work queue: " + err.Error()})
+	}
+	defer jf.Close()
+	fn(&st, jf)
+	b, _ := json.Marshal(st)
+	if err := os.WriteFile(sp, b, 0o644); err != nil {
+		panic(NondetError{Msg: "work queue: " + err.Error()})
+	}
+}
+
+// hungry reports whether some worker is waiting while the queue is empty.
+func (q *workQueue) hungry() (h bool) {
+	q.locked(func(st *qState, jf *os.File) {
+		end, _ := jf.Seek(0, io.SeekEnd)
+		h = st.Waiting > 0 && st.Off >= end && !st.Aborted
+	})
+	return h
+}
+
+// donate appends whole-subtree jobs.
+func (q *workQueue) donate(jobs []qJob) {
+	q.locked(func(st *qState, jf *os.File) {
+		jf.Seek(0, io.SeekEnd)
+		w := bufio.NewWriter(jf)
+		for _, j := range jobs {
+			b, _ := json.Marshal(j)
+			w.Write(b)
+			w.WriteByte('\n')
+		}
+		w.Flush()
+	})
+}
+
+func (q *workQueue) abort() {
+	q.locked(func(st *qState, _ *os.File) { st.Aborted = true })
+}
+
+// next hands the children of the finished job on, marks it finished and claims
+// the next job, waiting while the queue is empty but other workers are still
+// producing.
+func (q *workQueue) next(push []qJob, finished bool, deadline time.Time) (*qJob, int) {
+	waiting := false
+	for {
+		var job *qJob
+		state := -1
+		q.locked(func(st *qState, jf *os.File) {
+			if !st.Seeded {
+				st.Seeded = true
+				push = append(push, qJob{Prefix: []int{}, Level: 0})
+			}
+			if len(push) > 0 {
+				end, _ := jf.Seek(0, io.SeekEnd)
+				w := bufio.NewWriter(jf)
+				for _, j := range push {
+					b, _ := json.Marshal(j)
+					w.Write(b)
+					w.WriteByte('\n')
+				}
+				w.Flush()
+				_ = end
+				push = nil
+			}
+			if finished {
+				st.Active--
+				finished = false
+			}
+			if waiting {
+				st.Waiting--
+				waiting = false
+			}
+			if st.Aborted {
+				state = qAborted
+				return
+			}
+			end, _ := jf.Seek(0, io.SeekEnd)
+			if st.Off < end {
+				jf.Seek(st.Off, io.SeekStart)
+				line, err := bufio.NewReader(jf).ReadBytes('\n')
+				if err != nil {
+					panic(NondetError{Msg: "work queue: truncated job"})
+				}
+				var j qJob
+				if err := json.Unmarshal(line, &j); err != nil {
+					panic(NondetError{Msg: "work queue: " + err.Error()})
+				}
+				st.Off += int64(len(line))
+				st.Active++
+				job, state = &j, qJobReady
+				return
+			}
+			if st.Active == 0 {
+				state = qDone
+				return
+			}
+			st.Waiting++
+			waiting = true
+		})
+		if state >= 0 {
+			return job, state
+		}
+		if !deadline.IsZero() && time.Now().After(deadline) {
+			q.locked(func(st *qState, _ *os.File) { st.Waiting-- })
+			return nil, qAborted
+		}
+		time.Sleep(2 * time.Millisecond)
+	}
 }
 
 // Replay runs the body once on a fixed vector, keeping notes.
